@@ -391,8 +391,29 @@ let cmd_writer () =
     | OsFdatasync -> print_endline "fdatasync"
     | OsFsync -> print_endline "fsync") (List.rev (!st).w_log)
 
+(* JournalMgr.v: one op per line; prints "<journal_count> <evicted records>" after every op
+   c <k> create | w <k>* write batch | r <k> rotate memtable | f <k> flush | s seal | m maintenance | d <k> delete | x <k> <seqno> compaction drop *)
+let cmd_jmgr () =
+  let st = ref jinit in
+  (try while true do
+    let l = input_line stdin in
+    let n x = n_of_int (int_of_string x) in
+    (match split ' ' (String.trim l) with
+    | ["c"; k] -> st := jstep !st (JCreate (n k))
+    | "w" :: ks -> st := jstep !st (JWrite (List.map n ks))
+    | ["r"; k] -> st := jstep !st (JRotate (n k))
+    | ["f"; k] -> st := jstep !st (JFlush (n k))
+    | ["s"] -> st := jstep !st JSeal
+    | ["m"] -> st := jstep !st JMaint
+    | ["d"; k] -> st := jstep !st (JDelete (n k))
+    | ["x"; k; x] -> st := jstep !st (JCompactDrop (n k, n x))
+    | _ -> ());
+    Printf.printf "%d %d\n" (int_of_n (journal_count !st)) (List.length (!st).m_evicted)
+  done with End_of_file -> ())
+
 let () =
   match Array.to_list Sys.argv with
+  | [_; "jmgr"] -> cmd_jmgr ()
   | [_; "writer"] -> cmd_writer ()
   | [_; "marker"] -> cmd_marker ()
   | [_; "opts"] -> cmd_opts ()
